@@ -153,7 +153,7 @@ class Monitor(object):
       return 'dirty'
     return 'ok'
 
-  def check(self, limit=5):
+  def check(self, limit=5, shapes_of=None):
     """Problems found on the real dep_graph for the recorded reads of every clean formula cell."""
     e = self.e
     out = []
@@ -169,6 +169,11 @@ class Monitor(object):
         continue
       node, row = key
       stats['cells'] += 1
+      if shapes_of is not None:
+        n_checked = sum(len(rows) or 1 for (_d, _r, rows) in f.uses) + len(f.lookups)
+        for sh in shapes_of(node):
+          stats['shape-cells:' + sh] += 1
+          stats['shape-reads:' + sh] += n_checked
       for (dnode, rel, rows) in f.uses:
         stats['uses'] += 1
         if rel is None or depend.Edge(node, dnode, rel) not in graph._all_edges:
